@@ -226,7 +226,7 @@ func init() {
 			c.assumedExternal["adler32.Checksum on bytes not known to come from a string: keyed on the backing array identity"] = true
 		}
 		r := c.smt.define("adler", "Int", t)
-		c.smt.assume(rangeFact(types.Typ[types.Uint32], r), "")
+		c.smt.assume(rangeFact(types.Typ[types.Uint32], r), "adler32.Checksum is a uint32")
 		return Val{T: resT, Term: r}
 	}
 	// --- sort -------------------------------------------------------------------------------------------------------
